@@ -120,6 +120,8 @@ def fragment_form(rng, big=False):
                 r["relevant"] = expr(nm)
             if rng.random() < 0.2:
                 r["appearance"] = rng.choice(APPEARANCES[kind])
+            if rng.random() < 0.1 and tops:
+                r["label"] = "Sec ${%s}" % rng.choice(tops)
             r.pop("repeat_count", None)
             continue
         if base == "calculate":
@@ -150,6 +152,11 @@ def fragment_form(rng, big=False):
                 r["default"] = rng.choice(["a0", "b1", "x"])
         if rng.random() < 0.08:
             r[rng.choice(["label", "hint"])] = rng.choice(ADV_LABELS)
+        if rng.random() < 0.15 and tops:
+            # references in label / hint text: <output value="…"/> through the mixed channel
+            k = rng.choice(["label", "hint", "label"])
+            t = rng.choice(tops)
+            r[k] = rng.choice(["See ${%s}", "${%s}", "a ${%s} b ${%s}", "x < ${%s} & y", "  ${%s}!", "${%s}${%s}"]).replace("%s", t)
         if rng.random() < 0.01:
             r.pop("label", None)          # hint only, or rejected ("no label or hint")
     for c in form.get("choices", []):
@@ -169,7 +176,7 @@ def fragment_form(rng, big=False):
     elif r < 0.11:
         rows.append({"type": "geopoint", "name": "gp_x", "label": "Where"})
     elif r < 0.14 and tops:
-        rows.append({"type": "text", "name": "lbl_ref_q", "label": "See ${%s}" % tops[0]})
+        rows.append({"type": "text", "name": "lbl_ref_q", "label": rng.choice(["See ${nope_q}", "instance('x')/root/item[a=${%s}]/b" % tops[0], "${%s} is <b>bold</b>" % tops[0]])})
     elif r < 0.17 and len(rows) > 1:
         rows.append({"type": "text", "name": rows[0].get("name", "dupq"), "label": "dup"})
     elif r < 0.19:
@@ -255,6 +262,10 @@ def e2e_case(ctx, form, record=True) -> None:
                 ctx.count("e2e:byte-exact")
                 if '="../' in r0["xform"] or " ../" in r0["xform"]:
                     ctx.count("e2e:byte-exact with relative paths")
+                if "<output " in r0["xform"]:
+                    ctx.count("e2e:byte-exact with <output> in labels")
+                    if '<output value=" ../' in r0["xform"]:
+                        ctx.count("e2e:byte-exact with relative <output>")
     if record:
         ctx.record({"form": form}, answered)
 
